@@ -208,7 +208,7 @@ func main() {
 	r.Assume("not driven overlapped: SetAllStoresLimit, AddStoreLimit/RemoveStoreLimit and OnStoreVersionChange (PutStore), coordinator scheduler add/remove and start-up rewrite (needs the 5 min prepare), lazy GetStoreLimit insert; in-memory windows between a handler's read and its setter call (no storage operation to gate); a failure of the second (revert) write of SetReplicationModeConfig")
 	r.Assume("lists that pd marshals as one comma-joined string (location-labels, runtime-services) are observed with their element structure as well; a location label must be a legal label key (documented format: alphanumerics, '-', '_', '.', '/', starting and ending alphanumeric, optional leading '$'); no length limit is documented, none is judged; runtime-services items are not validated by pd and commas inside them are not generated")
 	r.Assume("sections are observed twice: as JSON and field by field through reflection ((fields)); an accepted single-field update must leave every other field of every section as it was and, where the spelling is the natural JSON form, serve exactly the requested value; a key spelled in another letter case or an unknown key is counted (skipped_ambiguous) when pd accepts it, but may never change another field")
-	r.Assume("leader-schedule-policy outside {count,size} and key-type outside {table,raw,txn} are judged on the not-started server only: on a running server pd's background statistics job panics into log.Fatal on such a value and the process is gone (counted as skipped_process_killing_value_on_running_server); an item of runtime-services containing ',' is reachable from Go only and is counted, not judged")
+	r.Assume("the random generator offers leader-schedule-policy outside {count,size} and key-type outside {table,raw,txn} on the not-started server only (an implementation that accepted them would lose its process to the background statistics job); the single-field grids offer them everywhere; an item of runtime-services containing ',' is reachable from Go only and is counted, not judged")
 	r.Assume("not judged: multi-key POST /config (keys are applied one by one), empty cluster version (documented: base version), case/underscore variants of the replication mode, the default placement rule after a refused replication update (counted as default_rule_out_of_sync_repaired, repaired by the harness)")
 	if r.Replay != "" {
 		// the case list is a function of (seed, tier, shard): a replay re-runs the recorded one
